@@ -135,7 +135,25 @@ pub fn run_cli(text: &str, args: &[String], tag: &str) -> Result<(bool, String, 
 
 pub fn gen_c12_case(g: &mut G) -> Value {
     let cfg = if g.chance(1, 2) { gs::Cfg::wide() } else { gs::Cfg::faithful() };
-    let doc = gs::document(g, &cfg);
+    let mut doc = gs::document(g, &cfg);
+    // order-sensitive region: sibling inline schemas that derive the *same* type name
+    // (same title, or same-named property in two variants) but differ; whichever is
+    // converted first wins, so any hash-ordered traversal shows up here
+    if g.chance(1, 2) {
+        let title = *g.pick(&["Side", "Shared Part", "dup"]);
+        let mut props = serde_json::Map::new();
+        let np = 2 + g.below(4);
+        for n in crate::gen::names::benign_props(g, np) {
+            props.insert(n.clone(), json!({"title": title, "type": "object", "properties": {format!("m_{n}"): {"type": "boolean"}}}));
+        }
+        doc["definitions"]["Frame"] = json!({"type": "object", "properties": props});
+    }
+    if g.chance(1, 4) {
+        doc["definitions"]["Variants"] = json!({"oneOf": [
+            {"type": "object", "properties": {"kind": {"type": "string", "enum": ["a"]}, "payload": {"type": "object", "properties": {"x": {"type": "string"}}}}, "required": ["kind"]},
+            {"type": "object", "properties": {"kind": {"type": "string", "enum": ["b"]}, "payload": {"type": "object", "properties": {"y": {"type": "integer"}}}}, "required": ["kind"]},
+            {"type": "object", "properties": {"kind": {"type": "string", "enum": ["c"]}, "payload": {"type": "string", "enum": ["p", "q"]}}, "required": ["kind"]}]});
+    }
     let settings = settings(g, &doc, true);
     json!({"settings": settings, "doc": doc, "perm": g.u64() % 1_000_000, "cli": false})
 }
